@@ -62,9 +62,11 @@ func (e *ECall) String() string {
 	}
 	return e.Fun + "(" + strings.Join(a, ", ") + ")"
 }
-func (e *EUn) String() string   { return e.Op + e.X.String() }
-func (e *EBin) String() string  { return "(" + e.L.String() + " " + e.Op + " " + e.R.String() + ")" }
-func (e *ECond) String() string { return "(" + e.C.String() + " ? " + e.A.String() + " : " + e.B.String() + ")" }
+func (e *EUn) String() string  { return e.Op + e.X.String() }
+func (e *EBin) String() string { return "(" + e.L.String() + " " + e.Op + " " + e.R.String() + ")" }
+func (e *ECond) String() string {
+	return "(" + e.C.String() + " ? " + e.A.String() + " : " + e.B.String() + ")"
+}
 func (e *EQuant) String() string {
 	q := "exists"
 	if e.Forall {
@@ -184,9 +186,9 @@ func parseExpr(s string) (e Expr, err error) {
 type parseErr string
 
 func (p *parser) fail(f string, a ...any) { panic(parseErr(fmt.Sprintf(f, a...))) }
-func (p *parser) peek() tok              { return p.toks[p.pos] }
-func (p *parser) next() tok              { t := p.toks[p.pos]; p.pos++; return t }
-func (p *parser) isOp(v string) bool     { t := p.peek(); return t.kind == "op" && t.val == v }
+func (p *parser) peek() tok               { return p.toks[p.pos] }
+func (p *parser) next() tok               { t := p.toks[p.pos]; p.pos++; return t }
+func (p *parser) isOp(v string) bool      { t := p.peek(); return t.kind == "op" && t.val == v }
 func (p *parser) expectOp(v string) {
 	if !p.isOp(v) {
 		p.fail("expected %q, got %q", v, p.peek().val)
